@@ -452,8 +452,23 @@ func genInflux(r *rand.Rand, c *Case) {
 	}
 }
 
-var ddKeys = []string{"env", "team", "version", "region", "k8s_pod", "app.kubernetes.io/name"}
-var ddVals = []string{"prod", "core", "1.2.3", "eu-1", "pod-7f9c", "a/b", "x_y"}
+var ddKeys = []string{"env", "team", "version", "region", "k8s_pod", "app.kubernetes.io/name", "région", "k", "a-b.c", "win\\path", "名前", "x9"}
+var ddVals = []string{"prod", "core", "1.2.3", "eu-1", "pod-7f9c", "a/b", "x_y", "host:8080", "a:b:c", "_", "9", "ü", "c:\\dir", "-", "..", "::"}
+
+// pieces of ddtags texts outside the plain k:v,k:v writing: what the pattern makes of them is for the model to say
+var ddTagSoup = []string{"env:prod", "__ttl_days__:7", "_x:1", "bad", "9x:1", "a b:c", "k:v w", ",", " ", "k:", ":v", "k::v", "é:ü", "k:v:w", "a:b/c", "x-y.z:1", "_k:v", "k:_",
+	"日本:語", "\ufffd:1", "k:\ufffd", "k:v,", ",,", "Env:Prod", "team:core ", " team:core", "a:b;c:d", "k=v", "k:v\n", "x:1,y:2", "ключ:значение", "٣:٣", "a٣:٣b"}
+
+func genTagsText(r *rand.Rand) string {
+	var sb strings.Builder
+	for n := 1 + r.Intn(5); n > 0; n-- {
+		sb.WriteString(ddTagSoup[r.Intn(len(ddTagSoup))])
+		if r.Intn(3) != 0 {
+			sb.WriteString(",")
+		}
+	}
+	return sb.String()
+}
 
 func genDDLog(r *rand.Rand, c *Case) {
 	c.Class = "logs"
@@ -479,6 +494,11 @@ func genDDLog(r *rand.Rand, c *Case) {
 			}
 			used[k] = true
 			e.Tags = append(e.Tags, KV{Str(k), Str(pick(r, ddVals))})
+		}
+		if r.Intn(4) == 0 {
+			e.TagsText = sp(genTagsText(r))
+			e.Tags = []KV{}
+			flag(c, "free-tags-text")
 		}
 		e.Source = opt([]string{"nginx", "java", "go"})
 		e.Service = opt([]string{"web", "payments", "auth"})
@@ -763,6 +783,10 @@ func gen(r *rand.Rand, i int) Case {
 		case 9, 10:
 			c.Proto = "ddlog"
 			genDDLog(r, &c)
+			if r.Intn(5) == 0 {
+				c.Damage = true
+				flag(&c, "damaged-document")
+			}
 		case 11:
 			c.Proto = "ddmet"
 			genDDMet(r, &c)
